@@ -226,7 +226,10 @@ def reference_was_stale(h, Sref, Scur):
 class UndoRedoMonitor(Monitor):
   """C01 + C03: undo each successful bundle, compare with S0; redo its stored actions, compare with S1."""
   MUTATES = True
-  def __init__(self, check_undo=True, check_redo=True, final_unwind=True, classify=None, schema_check=True):
+  def __init__(self, check_undo=True, check_redo=True, final_unwind=True, classify=None, schema_check=True, aux=False):
+    # aux=True: the monitor only exercises undo/redo inside another property's workload; what it
+    # sees is counted, not reported (C01/C03 report it from their own workloads).
+    self.aux = aux
     self.check_undo = check_undo
     self.check_redo = check_redo
     self.final_unwind = final_unwind
@@ -237,6 +240,12 @@ class UndoRedoMonitor(Monitor):
 
   def start(self, h):
     self.S_init = h.snap()
+
+  def _viol(self, h, mech, summary, detail):
+    if self.aux:
+      h.acc.count('aux_undo_redo_anomalies')
+      return
+    h.violation(mech, summary, detail)
 
   def _mech(self, default, ctx, d):
     if self.classify:
@@ -249,15 +258,17 @@ class UndoRedoMonitor(Monitor):
       return
     r = ctx.reply
     if not r.stored and not r.undo:
-      acc.case(None)
+      if not self.aux:
+        acc.case(None)
       return
-    nh = nontrivial_hash(ctx)
+    nh = nontrivial_hash(ctx) if not self.aux else None
     ur, err = h.apply([['ApplyUndoActions', json.loads(json.dumps(r.undo))]], 'undo')
     if err is not None:
-      h.violation(self._mech('undo_raises', ctx, []), 'ApplyUndoActions of a successful bundle raised %s' % err.text,
+      self._viol(h, self._mech('undo_raises', ctx, []), 'ApplyUndoActions of a successful bundle raised %s' % err.text,
                   {'bundle': ctx.bundle, 'undo': r.undo[:20]})
       self.diverged = True
-      acc.case(nh)
+      if not self.aux:
+        acc.case(nh)
       return
     acc.count('undos')
     S0u = h.snap()
@@ -267,15 +278,16 @@ class UndoRedoMonitor(Monitor):
         acc.count('prestate_not_a_fixpoint')
         d = None
       if d:
-        h.violation(self._mech('undo_diff', ctx, d), 'state after undo differs from state before bundle %s: %s' % (
+        self._viol(h, self._mech('undo_diff', ctx, d), 'state after undo differs from state before bundle %s: %s' % (
             action_kinds(ctx.bundle), d[:3]), {'bundle': ctx.bundle, 'diff': d, 'undo': r.undo[:20]})
     rr, err = h.apply([['ApplyDocActions', json.loads(json.dumps(r.stored))]], 'redo')
     if err is not None:
-      h.violation(self._mech('redo_raises', ctx, []) if self.check_redo else self._mech('undo_then_redo_raises', ctx, []),
+      self._viol(h, self._mech('redo_raises', ctx, []) if self.check_redo else self._mech('undo_then_redo_raises', ctx, []),
                   're-applying the stored actions after undo raised %s' % err.text,
                   {'bundle': ctx.bundle, 'stored': r.stored[:20]})
       self.diverged = True
-      acc.case(nh)
+      if not self.aux:
+        acc.case(nh)
       return
     acc.count('redos')
     S1r = h.snap()
@@ -285,12 +297,13 @@ class UndoRedoMonitor(Monitor):
         acc.count('poststate_not_a_fixpoint')
         d = None
       if d:
-        h.violation(self._mech('redo_diff', ctx, d), 'state after undo+redo differs from state after bundle %s: %s' % (
+        self._viol(h, self._mech('redo_diff', ctx, d), 'state after undo+redo differs from state after bundle %s: %s' % (
             action_kinds(ctx.bundle), d[:3]), {'bundle': ctx.bundle, 'diff': d, 'stored': r.stored[:20]})
     elif snapshot.diff(ctx.S1, S1r):
       self.diverged = True
     self.undo_stack.append(rr.undo)
-    acc.case(nh, {'bundle': ctx.bundle, 'undo': r.undo[:6]})
+    if not self.aux:
+      acc.case(nh, {'bundle': ctx.bundle, 'undo': r.undo[:6]})
 
   def end(self, h):
     if not self.final_unwind or self.diverged or not self.check_undo:
